@@ -3,6 +3,7 @@ package main
 import (
 	"fmt"
 	"io"
+	"path/filepath"
 	"sort"
 	"strconv"
 	"strings"
@@ -25,6 +26,33 @@ type Fact struct {
 	HB     []string `json:"hb"`
 }
 
+// UnitInfo locates a function unit (declaration or closure) in the source, for mapping race
+// reports (file:line) back to units
+type UnitInfo struct {
+	Name  string `json:"name"`
+	File  string `json:"file"`
+	Start int    `json:"start"`
+	End   int    `json:"end"`
+}
+
+// SiteInfo is one syntactic access before de-duplication
+type SiteInfo struct {
+	Unit string `json:"unit"`
+	File string `json:"file"`
+	Line int    `json:"line"`
+	Cls  string `json:"cls"`
+	Kind string `json:"kind"`
+}
+
+// ExemptPair is a conflicting pair that passes only because of a non-lock ordering (one of the
+// theorem's hypotheses); a race report on such a pair refutes the hypothesis
+type ExemptPair struct {
+	Cls    string `json:"cls"`
+	A      string `json:"a"` // function units
+	B      string `json:"b"`
+	Reason string `json:"reason"`
+}
+
 type Violation struct {
 	Cls string `json:"cls"`
 	A   int    `json:"a"` // fact indices
@@ -42,6 +70,9 @@ type Result struct {
 	PerClass   map[string]int `json:"facts_per_class"`
 	Inserts    map[string]int `json:"map_insertion_sites"`
 	Spawns     []string       `json:"spawns"`
+	Units      []UnitInfo     `json:"units"`
+	Exempt     []ExemptPair   `json:"exempt_pairs"`
+	SitesAll   []SiteInfo     `json:"sites_all"`
 	Notes      []string       `json:"notes"`
 }
 
@@ -326,6 +357,13 @@ func (a *analyzer) solve() *Result {
 		return
 	}
 
+	for _, u := range a.units {
+		p0, p1 := a.fset.Position(u.body.Pos()), a.fset.Position(u.body.End())
+		res.Units = append(res.Units, UnitInfo{u.name, filepath.Base(p0.Filename), p0.Line, p1.Line})
+		for _, ac := range u.accesses {
+			res.SitesAll = append(res.SitesAll, SiteInfo{u.name, filepath.Base(p0.Filename), ac.line, ac.cls, ac.kind})
+		}
+	}
 	seen := map[string]bool{}
 	for _, u := range a.units {
 		var ths []string
@@ -479,14 +517,44 @@ func (r *Result) compat(a, b *Fact) bool {
 		interI(a.Pre, b.Post) || interI(b.Pre, a.Post) || interI(a.Pre, b.Pre) || interS(a.HB, b.HB)
 }
 
+func (r *Result) exemptReason(a, b *Fact) string {
+	switch {
+	case !(r.isWrite(a) || r.isWrite(b)), a.Single && b.Single && a.Thread == b.Thread, interS(a.Locks, b.Locks):
+		return ""
+	case interS(a.HB, b.HB):
+		for _, h := range a.HB {
+			if contains(b.HB, h) {
+				return "hb:" + h
+			}
+		}
+	case a.Atomic && b.Atomic:
+		return "atomic"
+	case interI(a.Pre, b.Post) || interI(b.Pre, a.Post) || interI(a.Pre, b.Pre):
+		return "fork"
+	case (a.Init && !b.Racy) || (b.Init && !a.Racy):
+		return "init"
+	}
+	return ""
+}
+
 func (r *Result) check() {
 	bad := map[string]bool{}
+	seenEx := map[string]bool{}
 	for i := range r.Facts {
 		for j := i; j < len(r.Facts); j++ {
 			a, b := &r.Facts[i], &r.Facts[j]
-			if a.Cls == b.Cls && !r.compat(a, b) {
+			if a.Cls != b.Cls {
+				continue
+			}
+			if !r.compat(a, b) {
 				r.Violations = append(r.Violations, Violation{a.Cls, i, j})
 				bad[a.Cls] = true
+			} else if why := r.exemptReason(a, b); why != "" {
+				k := a.Cls + "|" + a.Func + "|" + b.Func + "|" + why
+				if !seenEx[k] {
+					seenEx[k] = true
+					r.Exempt = append(r.Exempt, ExemptPair{a.Cls, a.Func, b.Func, why})
+				}
 			}
 		}
 	}
